@@ -18,10 +18,10 @@ TRUSTED_BASE = [
     "hand-written Lean model GFO/Model/* where the correspondence did not exercise it",
     "Python harness (capture wrappers, canonicalisation, protocol encoder, monitors) and the native driver's I/O glue + Lean compiler",
     "oracle inputs: objective/constraint determinism, RNG contracts, float expressions inside backends, sklearn/scipy, numpy/pandas containers",
-    "translators (harness/translators.py with pytolean, pydriver, pystop, pysmbo, pyinit, pymem, pycore, pyconv, pygrid, pylocal, pypop, pypattern): eighteen generators "
+    "translators (harness/translators.py with pytolean, pydriver, pystop, pysmbo, pyinit, pymem, pycore, pyconv, pygrid, pylocal, pypop, pypattern, pypowell): nineteen generators "
     "regenerate Lean definitions from /repo's source on every run - tracker core, driver step methods, stop object + no_change + progress bar, "
     "SMBO bookkeeping and selection, Initializer, Memory / ResultsManager wrappers and finish_search, CoreOptimizer position kernels, Converter, "
-    "grid machines, set_random_seed, split / sort_pop_best_score, iterate of the local optimizers, iterate / init_pos / evaluate of ParallelTempering / ParticleSwarm / Spiral / EvolutionStrategy / DifferentialEvolution / GeneticAlgorithm, PatternSearch's iterate / finish_initialization / evaluate, GA parent selection, DIRECT selection, facade table, entropy census - and what they generate is PROVED equal to the "
+    "grid machines, set_random_seed, split / sort_pop_best_score, iterate of the local optimizers, iterate / init_pos / evaluate of ParallelTempering / ParticleSwarm / Spiral / EvolutionStrategy / DifferentialEvolution / GeneticAlgorithm, PatternSearch's and PowellsMethod's iterate / finish_initialization / evaluate, GA parent selection, DIRECT selection, facade table, entropy census - and what they generate is PROVED equal to the "
     "hand-written model (GFO/Gen/*Check.lean); trusted: the mapping tables from Python statement / expression forms to Lean terms (attribute -> model "
     "field, comparison -> IEEE comparison on F, truthiness, `int(a / b)` and `//` of naturals -> `/`, generator / constraint call -> tape read) and the "
     "numpy lines that are pinned verbatim and stand for a model function (clip-cast, mesh, fancy indexing, masks)",
